@@ -146,5 +146,12 @@ FaultScriptsL ==
 MCSpecFaultL == ISpecFam(<<FaultScriptsL>>)
 MCSpecFaultV == ISpecFam(<<FaultScriptsV>>)
 MCSpecFaultG == ISpecFam(<<FaultScriptsG>>)
-MCSpec == ISpecFam(<<VerifyScripts, PolicyScripts, BuilderScripts, JwkScripts, MapScripts>>)
+\* a clock that moves while a call is in progress (every reading one second later): one call, one verdict, one
+\* explanation - whatever instant the call took for "now"
+ClockTickOp(t) == [op |-> "Clock", now |-> t, tick |-> 1]
+TickScripts ==
+  { << LoadOp(<<KOct>>), CNewOp, CSetKeyOp("HS256", 0), ClockTickOp(T0), VerifyOp(WithClm(Good(KOct, "HS256"), m)), ClockOp(T0), VerifyOp(Good(KOct, "HS256")) >> :
+      m \in { <<IntM("exp", WAdd(T0, WOf(1)))>>, <<IntM("exp", WAdd(T0, WOf(2)))>>, <<IntM("nbf", WAdd(T0, WOf(1)))>>, <<IntM("nbf", WAdd(T0, WOf(2)))>>,
+              <<IntM("exp", WAdd(T0, WOf(1))), IntM("nbf", WAdd(T0, WOf(1)))>> } }
+MCSpec == ISpecFam(<<TickScripts, VerifyScripts, PolicyScripts, BuilderScripts, JwkScripts, MapScripts>>)
 =============================================================================
